@@ -11,9 +11,9 @@ import (
 func init() {
 	register(&Prop{
 		ID: "C13", Level: "exploration",
-		Rule: "seeded histories in which transactions of all four levels end by Commit (successful or failing with ErrTxSerialization) or Rollback and are then used again (Get, GetReader, GetKeys, Set, SetReader, Create, Delete, Commit, Rollback), plus handles naming never-begun transaction ids; inline and gRPC clients; after every step the autocommit caller, every open transaction (RU/RC/RR/SER readers) and every ended handle probe all keys and GetKeys, and half of the histories reopen the database at the end and probe again; all compared with the reference model (late use fails with ErrTxNotFound, Rollback is a no-op, nothing changes); evaluations = late calls + probes; distinct_nontrivial = distinct (late operation, level, how the transaction ended, client, result class) tuples",
+		Rule:        "seeded histories in which transactions of all four levels end by Commit (successful or failing with ErrTxSerialization) or Rollback and are then used again (Get, GetReader, GetKeys, Set, SetReader, Create, Delete, Commit, Rollback), plus handles naming never-begun transaction ids; inline and gRPC clients; after every step the autocommit caller, every open transaction (RU/RC/RR/SER readers) and every ended handle probe all keys and GetKeys, and half of the histories reopen the database at the end and probe again; all compared with the reference model (late use fails with ErrTxNotFound, Rollback is a no-op, nothing changes); evaluations = late calls + probes; distinct_nontrivial = distinct (late operation, level, how the transaction ended, client, result class) tuples",
 		Assumptions: []string{"reference model refmodel"},
-		Roles: map[string]Role{"main": {N: func(t string) int { return tierN(t, 200, 3000) }, Case: c13Case}},
+		Roles:       map[string]Role{"main": {N: func(t string) int { return tierN(t, 200, 3000) }, Case: c13Case}},
 	})
 }
 
@@ -24,7 +24,7 @@ func c13Case(tier string, seed int64, idx int, scratch string) rt.CaseResult {
 	p := seqrun.Profile{
 		Steps: steps0, Keys: txKeys[:3], Lens: []int{10, 10, 2500}, MaxOpen: 4, TxBias: 60,
 		TagPrefix: fmt.Sprintf("h%d-", idx),
-		W: map[string]int{"begin": 14, "set": 22, "delete": 5, "commit": 12, "rollback": 7, "lateread": 12, "latetx": 8, "phantom": 2, "collect": 1},
+		W:         map[string]int{"begin": 14, "set": 22, "delete": 5, "commit": 12, "rollback": 7, "lateread": 12, "latetx": 8, "phantom": 2, "collect": 1},
 	}
 	withLateWrites := idx%2 == 1
 	if withLateWrites {
